@@ -59,7 +59,77 @@ def __getattr__(name):
     if name.startswith("C29Dev"):
         c29_classes()
         return globals()[name]
+    if name == "SimParallelEtherCat":
+        return _make_sim_parallel()
     raise AttributeError(name)
+
+
+# ---------------------------------------------------------------------------
+# C24 (process kind): a ParallelEtherCat whose run() attaches the simulated
+# bus inside the spawned child instead of touching lock files / XDP
+# ---------------------------------------------------------------------------
+def _make_sim_parallel():
+    import sys
+    sys.path.insert(0, __import__("os").environ.get("EBPFCAT_REPO", "/repo"))
+    from contextlib import asynccontextmanager
+    from ebpfcat.ebpfcat import ParallelEtherCat
+    from ebpfcat.lock import MailboxLock
+
+    class SimParallelEtherCat(ParallelEtherCat):
+        sim_terms = None      # description of the simulated terminals
+        report = None         # file the child writes what the bus saw
+        ops = None            # shared counter of frames seen by the bus
+        _next = 0x01000000
+
+        def __getstate__(self):
+            return (self.addr[0], self.sim_terms, self.report, self.ops)
+
+        def __setstate__(self, st):
+            self.__init__(st[0])
+            self.sim_terms, self.report, self.ops = st[1:]
+
+        def get_mbx_lock(self, no):
+            return MailboxLock()
+
+        def get_fmmu_addr(self):
+            SimParallelEtherCat._next += 0x1000
+            return SimParallelEtherCat._next
+
+        @asynccontextmanager
+        async def run(self):
+            import asyncio
+            import json
+            import os
+            from vf import bus, simgroup
+            sims = simgroup.make_sims(self.sim_terms)
+            b = bus.Bus(sims)
+            bus.attach(self, asyncio.get_event_loop(), b)
+            orig = self.datagram_received
+            ops = self.ops
+
+            def received(data, addr):
+                if ops is not None:
+                    with ops.get_lock():
+                        ops.value += 1
+                return orig(data, addr)
+            self.datagram_received = received
+            try:
+                yield
+            finally:
+                rep = dict(al={s.name: [e[1] for e in s.events
+                                        if e[0] == "al_control"]
+                               for s in sims},
+                           fmmu_active={s.name: [
+                               i for i in range(s.nfmmu)
+                               if s.mem[0x600 + 16 * i + 12] & 1]
+                               for s in sims})
+                with open(self.report + ".tmp", "w") as f:
+                    json.dump(rep, f)
+                os.replace(self.report + ".tmp", self.report)
+    SimParallelEtherCat.__module__ = __name__
+    SimParallelEtherCat.__qualname__ = "SimParallelEtherCat"
+    globals()["SimParallelEtherCat"] = SimParallelEtherCat
+    return SimParallelEtherCat
 
 
 def c29_child(sg, conn):
